@@ -419,10 +419,16 @@ func authenticateUser(deps ServerDeps, conn net.Conn, tag string, username strin
 
 // ===== HANDLE SSL CONNECTION =====
 
-func HandleSSLConnection(clientHandler ClientHandler, conn net.Conn) {
-	certPath := "/certs/fullchain.pem"
-	keyPath := "/certs/privkey.pem"
+// tlsHandshakeTimeout is how long a client on the implicit-TLS port may take to
+// complete the TLS handshake
+const tlsHandshakeTimeout = 30 * time.Second
 
+func HandleSSLConnection(clientHandler ClientHandler, conn net.Conn) {
+	HandleSSLConnectionWithCert("/certs/fullchain.pem", "/certs/privkey.pem", clientHandler, conn)
+}
+
+// HandleSSLConnectionWithCert is HandleSSLConnection with the certificate of the caller's choice
+func HandleSSLConnectionWithCert(certPath, keyPath string, clientHandler ClientHandler, conn net.Conn) {
 	cert, err := tls.LoadX509KeyPair(certPath, keyPath)
 	if err != nil {
 		log.Printf("Failed to load TLS cert/key: %v", err)
@@ -436,14 +442,20 @@ func HandleSSLConnection(clientHandler ClientHandler, conn net.Conn) {
 	}
 
 	tlsConn := tls.Server(conn, tlsConfig)
+	// The session is over when this function returns, whichever way: release the socket
+	defer func() { _ = tlsConn.Close() }()
 
 	// Explicitly perform TLS handshake before starting IMAP session
-	// This ensures the handshake completes before we send the IMAP greeting
+	// This ensures the handshake completes before we send the IMAP greeting.
+	// The handshake runs under a deadline: a client that connects and then says
+	// nothing must not hold a goroutine and a socket for ever
+	_ = conn.SetDeadline(time.Now().Add(tlsHandshakeTimeout))
 	if err := tlsConn.Handshake(); err != nil {
 		log.Printf("TLS handshake failed: %v", err)
 		_ = conn.Close()
 		return
 	}
+	_ = conn.SetDeadline(time.Time{})
 
 	// Start IMAP session over TLS
 	clientHandler(tlsConn, &models.ClientState{})
